@@ -4,7 +4,7 @@ import core as C
 import builders as B
 import tlc as T
 
-DRIVER = os.environ.get("NAMES_DRIVER") or os.path.join(C.VERIF, "build", "drivers", "rel", "names_driver")
+DRIVER = os.environ.get("NAMES_DRIVER") or os.path.join(C.BUILD, "drivers", "rel", "names_driver")
 _cache = {}
 
 def spec_behaviours(cfg):
@@ -13,7 +13,7 @@ def spec_behaviours(cfg):
         return _cache[cfg]
     import plans
     h = plans.spec_hash(None)
-    cp = os.path.join(C.VERIF, "build", "mc_cache", "names_%s_%s.json" % (cfg, h))
+    cp = os.path.join(C.BUILD, "mc_cache", "names_%s_%s.json" % (cfg, h))
     if os.path.exists(cp):
         seqs = json.load(open(cp))
     else:
